@@ -31,6 +31,10 @@ func (b *buffer) currentTag() Tag {
 
 // nextTag returns the next tag in tagBuffer
 func (b *buffer) nextTag() Tag {
+	if b.pos+1 >= b.len {
+		// no further pending tag: slots at and beyond len hold tags of earlier decodes
+		return Tag{}
+	}
 	return b.tag[b.pos+1]
 }
 
